@@ -24,6 +24,14 @@ from scipy import stats
 from vizier import pyvizier
 
 
+def _to_float(x) -> float:
+  """float() that also accepts one-element arrays.
+
+  NumPy >= 2 refuses float() on arrays that are not 0-dimensional.
+  """
+  return float(np.asarray(x).item())
+
+
 def DefaultBBOBProblemStatement(
     dimension: int,
     *,
@@ -195,7 +203,7 @@ def _R(dim: int, seed: int, *moreseeds: Any) -> np.ndarray:
 def Sphere(arr: np.ndarray, seed: int = 0) -> float:
   """Implementation for BBOB Sphere function."""
   del seed
-  return float(np.sum(arr * arr))
+  return _to_float(np.sum(arr * arr))
 
 
 def Rastrigin(arr: np.ndarray, seed: int = 0) -> float:
@@ -207,7 +215,7 @@ def Rastrigin(arr: np.ndarray, seed: int = 0) -> float:
   z = np.matmul(_R(dim, seed, b"Q"), z)
   z = np.matmul(LambdaAlpha(10.0, dim), z)
   z = np.matmul(_R(dim, seed, b"R"), z)
-  return float(10 * (dim - np.sum(np.cos(2 * math.pi * z))) + np.sum(z * z))
+  return _to_float(10 * (dim - np.sum(np.cos(2 * math.pi * z))) + np.sum(z * z))
 
 
 def BuecheRastrigin(arr: np.ndarray, seed: int = 0) -> float:
@@ -221,7 +229,7 @@ def BuecheRastrigin(arr: np.ndarray, seed: int = 0) -> float:
   term1 = 10 * (dim - np.sum(np.cos(2 * math.pi * l), axis=0))
   term2 = np.sum(l * l, axis=0)
   term3 = 100 * Fpen(arr)
-  return float(term1 + term2 + term3)
+  return _to_float(term1 + term2 + term3)
 
 
 def LinearSlope(arr: np.ndarray, seed: int = 0) -> float:
@@ -234,7 +242,7 @@ def LinearSlope(arr: np.ndarray, seed: int = 0) -> float:
   for i in range(dim):
     s = 10**(i / float(dim - 1) if dim > 1 else 1)
     z_opt = 5 * np.sum(np.abs(r[i, :]))
-    result += float(s * (z_opt - z[i]))
+    result += _to_float(s * (z_opt - z[i]))
   return result
 
 
@@ -281,7 +289,7 @@ def RosenbrockRotated(arr: np.ndarray, seed: int = 0) -> float:
   dim = len(arr)
   r_x = np.matmul(_R(dim, seed, b"R"), arr)
   z = max(1.0, (dim**0.5) / 8.0) * r_x + 0.5 * np.ones((dim,))
-  return float(
+  return _to_float(
       sum([
           100.0 * (z[i]**2 - z[i + 1])**2 + (z[i] - 1)**2
           for i in range(dim - 1)
@@ -297,7 +305,7 @@ def Ellipsoidal(arr: np.ndarray, seed: int = 0) -> float:
   s = 0.0
   for i in range(dim):
     exp = 6.0 * i / (dim - 1) if dim > 1 else 6.0
-    s += float(10**exp * z_vec[i] * z_vec[i])
+    s += _to_float(10**exp * z_vec[i] * z_vec[i])
   return s
 
 
@@ -307,7 +315,7 @@ def Discus(arr: np.ndarray, seed: int = 0) -> float:
   arr.shape = (dim, 1)
   r_x = np.matmul(_R(dim, seed, b"R"), arr)
   z_vec = ArrayMap(r_x, Tosz)
-  return float(10**6 * z_vec[0] * z_vec[0]) + sum(
+  return _to_float(10**6 * z_vec[0] * z_vec[0]) + sum(
       [z * z for z in z_vec[1:].flat])
 
 
@@ -318,7 +326,7 @@ def BentCigar(arr: np.ndarray, seed: int = 0) -> float:
   z_vec = np.matmul(_R(dim, seed, b"R"), arr)
   z_vec = Tasy(z_vec, 0.5)
   z_vec = np.matmul(_R(dim, seed, b"R"), z_vec)
-  return float(z_vec[0]**2) + 10**6 * np.sum(z_vec[1:]**2)
+  return _to_float(z_vec[0]**2) + 10**6 * np.sum(z_vec[1:]**2)
 
 
 def SharpRidge(arr: np.ndarray, seed: int = 0) -> float:
@@ -358,7 +366,7 @@ def Weierstrass(arr: np.ndarray, seed: int = 0) -> float:
     for k in range(k_order):
       s += 0.5**k * math.cos(2 * math.pi * (3**k) * (z[i, 0] + 0.5))
 
-  return float(10 * (s / dim - f0)**3) + 10 * Fpen(arr) / dim
+  return _to_float(10 * (s / dim - f0)**3) + 10 * Fpen(arr) / dim
 
 
 def SchaffersF7(arr: np.ndarray, seed: int = 0) -> float:
@@ -374,7 +382,7 @@ def SchaffersF7(arr: np.ndarray, seed: int = 0) -> float:
 
   s_arr = np.zeros(dim - 1)
   for i in range(dim - 1):
-    s_arr[i] = float((z[i, 0]**2 + z[i + 1, 0]**2)**0.5)
+    s_arr[i] = _to_float((z[i, 0]**2 + z[i + 1, 0]**2)**0.5)
   s = 0.0
   for i in range(dim - 1):
     s += s_arr[i]**0.5 + (s_arr[i]**0.5) * math.sin(50 * s_arr[i]**0.2)**2
@@ -395,7 +403,7 @@ def SchaffersF7IllConditioned(arr: np.ndarray, seed: int = 0) -> float:
 
   s_arr = np.zeros(dim - 1)
   for i in range(dim - 1):
-    s_arr[i] = float((z[i, 0]**2 + z[i + 1, 0]**2)**0.5)
+    s_arr[i] = _to_float((z[i, 0]**2 + z[i + 1, 0]**2)**0.5)
   s = 0.0
   for i in range(dim - 1):
     s += s_arr[i]**0.5 + (s_arr[i]**0.5) * math.sin(50 * s_arr[i]**0.2)**2
@@ -511,7 +519,7 @@ def Gallagher101Me(arr: np.ndarray, seed: int = 0) -> float:
     w = 10 if i == 0 else (1.1 + 8.0 * (i - 1.0) / (num_optima - 2.0))
     diff = np.matmul(rotation, arr - optima_list[i])
     e = np.matmul(diff.transpose(), np.matmul(c_list[i], diff))
-    max_value = max(max_value, w * math.exp(-float(e) / (2.0 * dim)))
+    max_value = max(max_value, w * math.exp(-_to_float(e) / (2.0 * dim)))
 
   return Tosz(10.0 - max_value)**2 + Fpen(arr)
 
@@ -544,7 +552,7 @@ def Gallagher21Me(arr: np.ndarray, seed: int = 0) -> float:
     w = 10 if i == 0 else (1.1 + 8.0 * (i - 1.0) / (num_optima - 2.0))
     diff = np.matmul(rotation, arr - optima_list[i])
     e = np.matmul(diff.transpose(), np.matmul(c_list[i], diff))
-    max_value = max(max_value, w * math.exp(-float(e) / (2.0 * dim)))
+    max_value = max(max_value, w * math.exp(-_to_float(e) / (2.0 * dim)))
 
   return Tosz(10.0 - max_value)**2 + Fpen(arr)
 
@@ -557,7 +565,7 @@ def NegativeSphere(arr: np.ndarray, seed: int = 0) -> float:
   dim = len(arr)
   arr.shape = (dim, 1)
   z = np.matmul(_R(dim, seed, b"R"), arr)
-  return float(100 + np.sum(z * z) - 2 * (z[0, 0]**2))
+  return _to_float(100 + np.sum(z * z) - 2 * (z[0, 0]**2))
 
 
 def NegativeMinDifference(arr: np.ndarray, seed: int = 0) -> float:
@@ -568,10 +576,10 @@ def NegativeMinDifference(arr: np.ndarray, seed: int = 0) -> float:
   min_difference = 10000
   for i in range(len(z) - 1):
     min_difference = min(min_difference, z[i + 1] - z[i])
-  return 10.0 - float(min_difference) + 1e-8 * float(sum(arr))
+  return 10.0 - _to_float(min_difference) + 1e-8 * _to_float(sum(arr))
 
 
 def FonsecaFleming(arr: np.ndarray, seed: int = 0) -> float:
   """Implementation for FonsecaFleming function."""
   del seed
-  return 1.0 - float(np.exp(-np.sum(arr * arr)))
+  return 1.0 - _to_float(np.exp(-np.sum(arr * arr)))
